@@ -205,6 +205,7 @@ pub fn explore(sc: &Scenario, cfg: &Config) -> Report {
                 let pts: Vec<(Sig, u32)> = rtx.points.iter().map(|p| (p.sig.clone(), p.taken)).collect();
                 max_depth = max_depth.max(pts.len());
                 max_syms = max_syms.max(rtx.nsyms());
+                if let Ok(v) = std::env::var("SYMORD_DEBUG_SYMS") { if rtx.nsyms() >= v.parse().unwrap_or(99) { eprintln!("DEBUG syms={} choices={:?} notes={:?} hook_calls={}", rtx.nsyms(), rtx.choices, rtx.notes, rtx.path_hook_calls); } }
                 let has_order = pts.iter().any(|p| matches!(p.0, Sig::Hook(..)));
                 match &outcome {
                     Outcome::Skip => skipped += 1,
